@@ -295,8 +295,9 @@ def _rw(t, rules, gt, parent, slot):
     (carries the signed-literal marks), walked in parallel.'''
     k = t["k"]
     if k == "lit":
+        # (the generator tree has the literal's value as given to PSyIR)
         if "double-literal-without-exponent" in rules and t["ty"] == "real" \
-                and t["kd"] == "d" and "e" not in t["v"]:
+                and t["kd"] == "d" and "e" not in gt["v"]:
             return lit("real", t["v"], ""), False
         return t, False
     if k == "un":
@@ -581,6 +582,7 @@ def run(tier):
         "tokenizer trusted: case folded, .EQ.-style and ==-style relational operators "
         "identified, d-exponent reported as kind",
         "a signed PSyIR Literal is the level-2 expression sign+literal",
+        "real literal digits compared up to the spelling of the exponent (1.5e0 = 1.5)",
         "Precision.SINGLE and UNDEFINED denote the same (default) literal kind; "
         "relative precisions of INTEGER/LOGICAL literals are not enumerated",
         "array element, function reference and intrinsic call share one syntax "
